@@ -1369,6 +1369,295 @@ Proof.
   - now apply step_no_stale.
 Qed.
 
+
+(* ------------------------------------------------------------------ *)
+(* persistence: index.json *)
+
+(* shape of the reference map: a by-digest reference names its own content, every tagged
+   descriptor also has its by-digest reference *)
+Definition refs_ok (ix : list (ref * nat)) : Prop :=
+  (forall d n, In (RDig d, n) ix -> d = n) /\
+  (forall t n, In (RTag t, n) ix -> In (RDig n, n) ix).
+
+Definition nonstale (e : ref * nat) : bool := match fst e with RStale _ => false | _ => true end.
+
+Lemma save_form_In ix e :
+  In e (save_form ix) <->
+  In e ix /\ match fst e with
+             | RTag _ => True
+             | RDig _ => ~ In (snd e) (tagged_nodes ix)
+             | RStale _ => False end.
+Proof.
+  unfold save_form. rewrite filter_In. destruct e as [[t|d|t] n]; cbn [fst snd].
+  - tauto.
+  - rewrite negb_true_iff, memb_false. tauto.
+  - split; [intros [_ H]; discriminate|tauto].
+Qed.
+
+Lemma load_form_In d e :
+  In e (load_form d) <->
+  exists e0, In e0 d /\ match fst e0 with
+                        | RTag t => e = (RDig (snd e0), snd e0) \/ e = (RTag t, snd e0)
+                        | RDig _ => e = (RDig (snd e0), snd e0)
+                        | RStale _ => False end.
+Proof.
+  unfold load_form. rewrite in_flat_map. split; intros (e0 & H0 & H); exists e0; (split; [assumption|]);
+    destruct e0 as [[t|d0|t] n]; cbn [fst snd] in *.
+  - destruct H as [H|[H|[]]]; auto.
+  - destruct H as [H|[]]; auto.
+  - destruct H.
+  - destruct H as [H|H]; [left|right; left]; auto.
+  - left. auto.
+  - destruct H.
+Qed.
+
+(* loadIndex after saveIndex gives back the reference map *)
+Lemma load_save ix e : refs_ok ix ->
+  (In e (load_form (save_form ix)) <-> In e ix /\ nonstale e = true).
+Proof.
+  intros [R1 R2]. rewrite load_form_In. split.
+  - intros (e0 & H0 & H). apply save_form_In in H0 as [H0 Hc]. destruct e0 as [[t|d0|t] n]; cbn [fst snd] in *.
+    + destruct H as [->| ->]; (split; [|reflexivity]); [now apply (R2 t)|assumption].
+    + subst e. pose proof (R1 _ _ H0). subst d0. split; [assumption|reflexivity].
+    + destruct H.
+  - intros [He Hn]. destruct e as [[t|d0|t] n]; cbn in Hn; try discriminate.
+    + exists (RTag t, n). split; [apply save_form_In; cbn; tauto|cbn; now right].
+    + pose proof (R1 _ _ He). subst d0.
+      destruct (in_dec Nat.eq_dec n (tagged_nodes ix)) as [Ht|Ht].
+      * apply tagged_nodes_In in Ht as (t & Ht). exists (RTag t, n).
+        split; [apply save_form_In; cbn; tauto|cbn; now left].
+      * exists (RDig n, n). split; [apply save_form_In; cbn; tauto|reflexivity].
+Qed.
+
+Definition seteq {A} (a b : list A) : Prop := forall e, In e a <-> In e b.
+
+Lemma tagged_nodes_seteq a b : seteq a b -> seteq (tagged_nodes a) (tagged_nodes b).
+Proof. intros H n. rewrite !tagged_nodes_In. split; intros (t & Ht); exists t; now apply H. Qed.
+
+Lemma save_form_seteq a b : seteq a b -> seteq (save_form a) (save_form b).
+Proof.
+  intros H e. rewrite !save_form_In. pose proof (tagged_nodes_seteq a b H (snd e)) as Ht.
+  destruct e as [[t|d|t] n]; cbn [fst snd] in *; rewrite (H _); tauto.
+Qed.
+
+Lemma load_form_seteq a b : seteq a b -> seteq (load_form a) (load_form b).
+Proof. intros H e. rewrite !load_form_In. split; intros (e0 & H0 & Hc); exists e0; (split; [now apply H|assumption]). Qed.
+
+(* stale tag-set entries are not written *)
+Lemma save_form_nonstale ix : seteq (save_form (filter nonstale ix)) (save_form ix).
+Proof.
+  intro e. rewrite !save_form_In, filter_In.
+  assert (Ht : forall n, In n (tagged_nodes (filter nonstale ix)) <-> In n (tagged_nodes ix)).
+  { intro n. rewrite !tagged_nodes_In. split; intros (t & H); exists t.
+    - apply filter_In in H. tauto.
+    - apply filter_In. split; [assumption|reflexivity]. }
+  destruct e as [[t|d|t] n]; cbn [fst snd]; unfold nonstale; cbn [fst]; rewrite ?Ht; tauto.
+Qed.
+
+Lemma refs_ok_load d : refs_ok (load_form d).
+Proof.
+  split.
+  - intros d0 n H. apply load_form_In in H as (e0 & _ & H). destruct e0 as [[t|d1|t] m]; cbn [fst snd] in H.
+    + destruct H as [H|H]; congruence.
+    + congruence.
+    + destruct H.
+  - intros t n H. apply load_form_In in H as (e0 & H0 & H). apply load_form_In. exists e0.
+    split; [assumption|]. destruct e0 as [[t0|d1|t0] m]; cbn [fst snd] in *.
+    + destruct H as [H|H]; [discriminate|]. injection H as -> ->. now left.
+    + discriminate.
+    + destruct H.
+Qed.
+
+Lemma refs_ok_seteq a b : seteq a b -> refs_ok a -> refs_ok b.
+Proof.
+  intros H [R1 R2]. split.
+  - intros d n Hd. apply (R1 d n). now apply H.
+  - intros t n Ht. apply H. apply (R2 t). now apply H.
+Qed.
+
+Lemma entries_eqb_eq a : forall b, entries_eqb a b = true -> a = b.
+Proof.
+  induction a as [|x a IH]; intros [|y b]; simpl; intro H; try discriminate; [reflexivity|].
+  apply andb_true_iff in H as [H1 H2]. unfold entry_eqb in H1. apply andb_true_iff in H1 as [Hr Hn].
+  apply ref_eqb_eq in Hr. apply Nat.eqb_eq in Hn. destruct x, y. simpl in *. subst. f_equal. now apply IH.
+Qed.
+
+(* refs_ok is kept by every operation of the repaired code *)
+Lemma set_ref_In r n ix e : In e (set_ref r n ix) <-> e = (r, n) \/ (In e ix /\ fst e <> r).
+Proof.
+  unfold set_ref. simpl. rewrite filter_In, negb_true_iff. split.
+  - intros [H|[H1 H2]]; [left; congruence|right]. split; [assumption|].
+    intro E. apply ref_eqb_eq in E. congruence.
+  - intros [H|[H1 H2]]; [left; congruence|right]. split; [assumption|].
+    destruct (ref_eqb (fst e) r) eqn:E; [|reflexivity]. apply ref_eqb_eq in E. contradiction.
+Qed.
+
+Lemma refs_ok_set_dig n ix : refs_ok ix -> refs_ok (set_ref (RDig n) n ix).
+Proof.
+  intros [R1 R2]. split.
+  - intros d m H. apply set_ref_In in H as [H|[H _]]; [congruence|eauto].
+  - intros t m H. apply set_ref_In in H as [H|[H _]]; [discriminate|].
+    apply set_ref_In. destruct (Nat.eq_dec m n) as [->|Hne]; [now left|right].
+    split; [now apply (R2 t)|]. cbn. congruence.
+Qed.
+
+Lemma delete_loop_refs_ok c ord : forall fuel k st queue seen pending,
+  refs_ok (idx st) ->
+  refs_ok (idx (fst (delete_loop succ subject manifest c ord fuel k st queue seen pending))).
+Proof.
+  induction fuel as [|f IH]; intros k st queue seen pending Hw; [exact Hw|].
+  cbn [delete_loop]. destruct queue as [|h q]; [exact Hw|].
+  unfold delete_one.
+  assert (Hw' : refs_ok (del_idx succ manifest st h)).
+  { destruct Hw as [R1 R2]. split.
+    - intros d n H. apply del_idx_In in H as [[H _]|(d0 & E & _)]; [eauto|congruence].
+    - intros t n H. apply del_idx_In in H as [[H Hn]|(d0 & E & _)]; [|discriminate].
+      apply del_idx_In. left. split; [now apply (R2 t)|exact Hn]. }
+  destruct (memb h (blobs st)); [|exact Hw'].
+  apply IH. exact Hw'.
+Qed.
+
+Lemma gc_refs_ok kl ords st : (forall i n, In n (ords i) <-> In n (candidates (idx st))) ->
+  refs_ok (idx (fst (gc succ subject manifest cfg_fixed kl ords st))).
+Proof.
+  intro Ho. unfold gc.
+  destruct (gc_index_full st ords Ho kl) as (ix' & g & Hg & _ & HT & D1 & _ & D3 & _). rewrite Hg.
+  cbn [fst idx]. split.
+  - intros d n H. now destruct (D1 d n H).
+  - intros t n H. apply HT in H. now apply (D3 t).
+Qed.
+
+Lemma step_refs_ok kl st o : refs_ok (idx st) ->
+  refs_ok (idx (fst (step succ subject manifest cfg_fixed kl st o))).
+Proof.
+  intro Hw. destruct o as [n|n t|t|n| |b|s| |]; cbn [step].
+  - unfold push. destruct (memb n (blobs st)); [exact Hw|]. cbn [fst idx].
+    destruct (manifest n); [now apply refs_ok_set_dig|exact Hw].
+  - unfold tag. destruct (memb n (blobs st)); [|exact Hw]. cbn [fst idx fixStale cfg_fixed orb].
+    assert (E : match lookup (RTag t) (idx st) with Some _ => [] | None => [] end = (@nil (ref * nat)))
+      by (destruct (lookup (RTag t) (idx st)); reflexivity).
+    rewrite E. cbn [app]. pose proof (refs_ok_set_dig n _ Hw) as [R1 R2]. split.
+    + intros d m H. apply set_ref_In in H as [H|[H _]]; [discriminate|eauto].
+    + intros t' m H. apply set_ref_In. right. split; [|cbn; discriminate].
+      apply set_ref_In in H as [H|[H _]].
+      * injection H as -> ->. apply set_ref_In. now left.
+      * now apply (R2 t').
+  - unfold untag. destruct (lookup (RTag t) (idx st)); [|exact Hw]. cbn [fst idx].
+    destruct Hw as [R1 R2]. split.
+    + intros d m H. apply filter_In in H as [H _]. eauto.
+    + intros t' m H. apply filter_In in H as [H Hc]. apply filter_In. split; [now apply (R2 t')|reflexivity].
+  - unfold delete. now apply delete_loop_refs_ok.
+  - apply gc_refs_ok. tauto.
+  - exact Hw.
+  - exact Hw.
+  - cbn [fst idx]. destruct Hw as [R1 R2]. split.
+    + intros d m H. apply filter_In in H as [H _]. eauto.
+    + intros t' m H. apply filter_In in H as [H _]. apply filter_In. split; [now apply (R2 t')|reflexivity].
+  - cbn [fst idx]. split.
+    + intros d m H. apply in_flat_map in H as ([r k] & _ & H). destruct r; cbn in H; try contradiction.
+      destruct H as [H|[H|[]]]; congruence.
+    + intros t' m H. apply in_flat_map in H as ([r k] & Hk & H). apply in_flat_map. exists (r, k).
+      split; [assumption|]. destruct r; cbn in *; try contradiction.
+      destruct H as [H|[H|[]]]; [discriminate|]. injection H as -> ->. now left.
+Qed.
+
+(* index.json is current: [disk] is what saveIndex writes for the reference map *)
+Definition synced (p : pstate) : Prop := seteq (disk p) (save_form (idx (mem p))).
+Definition pstate_ok (p : pstate) : Prop := refs_ok (idx (mem p)) /\ synced p /\ autosave p = true.
+
+Lemma saved_synced b p m :
+  (b = false -> seteq (disk p) (save_form (idx m))) -> synced (saved b p m).
+Proof.
+  intros H. unfold synced, saved. cbn [disk mem]. destruct b; [intro; tauto|now apply H].
+Qed.
+
+Lemma pstep_ok kl p o : pstate_ok p -> o <> PAutoSave false ->
+  pstate_ok (fst (pstep succ subject manifest cfg_fixed kl p o)).
+Proof.
+  intros (Hr & Hs & Ha) Hne. destruct o as [o| |b|early order k].
+  - destruct o as [n|n t|t|n| |b|s| |]; cbn [pstep].
+    + pose proof (step_refs_ok kl (mem p) (OPush n) Hr) as Hr'. cbn [step] in Hr'.
+      unfold push in *. destruct (memb n (blobs (mem p))) eqn:E; cbn [fst] in *.
+      * rewrite Ha. cbn. split; [exact Hr|split; [|exact Ha]].
+        apply saved_synced. intros _. exact Hs.
+      * split; [exact Hr'|split; [|exact Ha]]. rewrite Ha. cbn [andb is_ok].
+        apply saved_synced. intro Hm. rewrite andb_true_r in Hm. cbn [idx]. rewrite Hm. exact Hs.
+    + pose proof (step_refs_ok kl (mem p) (OTag n t) Hr) as Hr'. cbn [step] in Hr'.
+      destruct (tag manifest cfg_fixed (mem p) n t) as [m r] eqn:E. cbn [fst] in *.
+      split; [exact Hr'|split; [|exact Ha]]. rewrite Ha. apply saved_synced. cbn [andb]. intro Hok.
+      unfold tag in E. destruct (memb n (blobs (mem p))); injection E as <- <-; [discriminate|exact Hs].
+    + pose proof (step_refs_ok kl (mem p) (OUntag t) Hr) as Hr'. cbn [step] in Hr'.
+      destruct (untag (mem p) t) as [m r] eqn:E. cbn [fst] in *.
+      split; [exact Hr'|split; [|exact Ha]]. rewrite Ha. apply saved_synced. cbn [andb]. intro Hok.
+      unfold untag in E. destruct (lookup (RTag t) (idx (mem p))); injection E as <- <-; [discriminate|exact Hs].
+    + pose proof (step_refs_ok kl (mem p) (ODelete n) Hr) as Hr'. cbn [step] in Hr'.
+      destruct (delete succ subject manifest cfg_fixed ord_id (mem p) n) as [m r] eqn:E. cbn [fst] in *.
+      split; [exact Hr'|split; [|exact Ha]]. rewrite Ha. apply saved_synced. cbn [andb]. intro Hq.
+      apply negb_false_iff in Hq. apply entries_eqb_eq in Hq. rewrite Hq. exact Hs.
+    + pose proof (step_refs_ok kl (mem p) OGC Hr) as Hr'. cbn [step] in Hr'.
+      destruct (gc succ subject manifest cfg_fixed kl (fun _ => candidates (idx (mem p))) (mem p)) as [m r] eqn:E.
+      cbn [fst] in *. split; [exact Hr'|split; [|exact Ha]]. rewrite Ha. apply saved_synced. cbn [andb]. intro Hok.
+      unfold gc in E. destruct (gc_index _ _ _ _ _ _ (mem p)) as [[ix g]|]; injection E as <- <-; [discriminate|exact Hs].
+    + cbn [fst]. split; [exact Hr|split; [|exact Ha]]. apply saved_synced. intros _. exact Hs.
+    + cbn [fst]. split; [exact Hr|split; [|exact Ha]]. apply saved_synced. intros _. exact Hs.
+    + cbn [fst]. split; [apply refs_ok_load|split; [|reflexivity]].
+      unfold synced, reload. cbn [disk mem idx]. intro e.
+      pose proof (load_form_seteq _ _ Hs) as H1.
+      assert (H2 : seteq (load_form (disk p)) (filter nonstale (idx (mem p)))).
+      { intro x. rewrite (H1 x), (load_save _ x Hr), filter_In. tauto. }
+      rewrite (save_form_seteq _ _ H2 e), (save_form_nonstale _ e). apply Hs.
+    + cbn [fst]. split; [apply refs_ok_load|split; [|reflexivity]].
+      unfold synced, reload. cbn [disk mem idx]. intro e. rewrite save_form_In, load_form_In, filter_In. split.
+      * intros [He Ht]. destruct e as [[t|d|t] n]; cbn in Ht; try discriminate.
+        split; [exists (RTag t, n); split; [apply filter_In; split; [assumption|reflexivity]|cbn; now right]|exact I].
+      * intros ((e0 & H0 & Hc) & Hk). apply filter_In in H0 as [H0 Ht0].
+        destruct e0 as [[t0|d0|t0] m]; cbn in Ht0; try discriminate. cbn [fst snd] in Hc.
+        destruct Hc as [-> | ->].
+        -- exfalso. cbn [fst snd] in Hk. apply Hk. apply tagged_nodes_In. exists t0.
+           apply load_form_In. exists (RTag t0, m). split; [apply filter_In; split; [assumption|reflexivity]|cbn; now right].
+        -- split; [assumption|reflexivity].
+  - cbn [pstep fst]. split; [exact Hr|split; [|exact Ha]]. apply saved_synced. discriminate.
+  - destruct b; [|congruence]. cbn [pstep fst]. split; [exact Hr|split; [exact Hs|reflexivity]].
+  - destruct early; cbn [pstep]; [split; [exact Hr|split; assumption]|].
+    destruct (gc_cancel succ subject manifest cfg_fixed kl (fun _ => candidates (idx (mem p))) order k (mem p)) as [m r] eqn:E.
+    cbn [fst]. unfold gc_cancel in E.
+    pose proof (gc_refs_ok kl (fun _ => candidates (idx (mem p))) (mem p) ltac:(tauto)) as Hg. unfold gc in Hg.
+    destruct (gc_index _ _ _ _ _ _ (mem p)) as [[ix g]|]; injection E as <- <-.
+    + cbn [fst idx] in Hg. split; [exact Hg|split; [|exact Ha]]. rewrite Ha. apply saved_synced. discriminate.
+    + split; [exact Hr|split; [|exact Ha]]. rewrite Ha. apply saved_synced. intros _. exact Hs.
+Qed.
+
+Lemma pinit_ok : pstate_ok pinit.
+Proof.
+  split; [split; intros ? ? []|split; [|reflexivity]]. intro e. cbn. tauto.
+Qed.
+
+Lemma prun_ok kl ops : Forall (fun o => o <> PAutoSave false) ops ->
+  pstate_ok (fold_left (fun p o => fst (pstep succ subject manifest cfg_fixed kl p o)) ops pinit).
+Proof.
+  assert (H : forall p, pstate_ok p -> Forall (fun o => o <> PAutoSave false) ops ->
+    pstate_ok (fold_left (fun p o => fst (pstep succ subject manifest cfg_fixed kl p o)) ops p)).
+  { induction ops as [|o ops IH]; intros p Hp Hf; [exact Hp|]. inversion Hf; subst. simpl.
+    apply IH; [now apply pstep_ok|assumption]. }
+  apply H. exact pinit_ok.
+Qed.
+
+(* with a current index.json, a new Store on the directory (reload from disk) is the model's
+   OReopen of the in-memory state: same storage, same references, same graph *)
+Lemma reload_is_reopen kl p : pstate_ok p ->
+  let a := mem (fst (pstep succ subject manifest cfg_fixed kl p (PO OReopen))) in
+  let b := fst (step succ subject manifest cfg_fixed kl (mem p) OReopen) in
+  blobs a = blobs b /\ seteq (idx a) (idx b) /\ seteq (gnodes a) (gnodes b) /\
+  strays a = strays b /\ autogc a = autogc b.
+Proof.
+  intros (Hr & Hs & _). cbn [pstep step fst mem]. unfold reload. cbn [blobs idx gnodes strays autogc].
+  assert (H2 : seteq (load_form (disk p)) (filter nonstale (idx (mem p)))).
+  { intro x. rewrite (load_form_seteq _ _ Hs x), (load_save _ x Hr), filter_In. tauto. }
+  split; [reflexivity|]. split; [exact H2|]. split; [|split; reflexivity].
+  intro x. rewrite !dedup_In, !in_flat_map. split; intros (n & Hn & Hx); exists n; (split; [|assumption]);
+    apply in_map_iff in Hn as (e & <- & He); apply in_map; now apply H2.
+Qed.
+
 End Proofs.
 
 (* ================================================================== *)
@@ -1781,3 +2070,55 @@ Proof.
   - intros t n. rewrite T2. tauto.
   - intro s. rewrite S2. rewrite Es1, S1. tauto.
 Qed.
+
+(* ---- persistence ---- *)
+Definition prun_w (ops : list pop) : pstate :=
+  fold_left (fun p o => fst (pstep succ_w subject_w manifest_w cfg_fixed true p o)) ops pinit.
+
+(* AutoSaveIndex off and no SaveIndex: the tag and the manifest are lost by a restart followed
+   by GC ("unsaved index will be lost"); with AutoSaveIndex on they survive *)
+Lemma unsaved_index_lost :
+  let ops := [PO (OPush 0); PO (OPush 1); PO (OTag 1 0); PO OReopen; PO OGC] in
+  blobs (mem (prun_w (PAutoSave false :: ops))) = [] /\
+  lookup (RTag 0) (idx (mem (prun_w (PAutoSave false :: ops)))) = None /\
+  blobs (mem (prun_w ops)) = [1; 0] /\
+  lookup (RTag 0) (idx (mem (prun_w ops))) = Some 1 /\
+  blobs (mem (prun_w (PAutoSave false :: [PO (OPush 0); PO (OPush 1); PO (OTag 1 0); PSave; PO OReopen; PO OGC]))) = [1; 0].
+Proof. vm_compute. repeat split. Qed.
+
+Lemma index_json_current_final : forall succ subject manifest,
+  acyclic succ -> subject_listed succ subject ->
+  forall kl ops, Forall (fun o => o <> PAutoSave false) ops ->
+  let p := fold_left (fun p o => fst (pstep succ subject manifest cfg_fixed kl p o)) ops pinit in
+  (forall e, In e (disk p) <-> In e (save_form (idx (mem p)))) /\
+  refs_ok (idx (mem p)) /\ autosave p = true.
+Proof.
+  intros succ subject manifest H1 H2 kl ops Hf p.
+  destruct (prun_ok succ subject manifest H1 H2 kl ops Hf) as (Hr & Hs & Ha). fold p in Hr, Hs, Ha.
+  split; [exact Hs|split; assumption].
+Qed.
+
+Lemma index_json_step_final : forall succ subject manifest,
+  acyclic succ -> subject_listed succ subject ->
+  forall kl p o, pstate_ok p -> o <> PAutoSave false ->
+  pstate_ok (fst (pstep succ subject manifest cfg_fixed kl p o)).
+Proof. intros succ subject manifest H1 H2. exact (pstep_ok succ subject manifest H1 H2). Qed.
+
+Lemma save_index_final : forall succ subject manifest kl p,
+  let p' := fst (pstep succ subject manifest cfg_fixed kl p PSave) in
+  disk p' = save_form (idx (mem p)) /\ mem p' = mem p.
+Proof. intros. split; reflexivity. Qed.
+
+Lemma load_save_final : forall ix e, refs_ok ix ->
+  (In e (load_form (save_form ix)) <-> In e ix /\ nonstale e = true).
+Proof. intros ix e H. exact (load_save (fun _ => true) ix e H). Qed.
+
+Lemma reload_is_reopen_final : forall succ subject manifest,
+  acyclic succ -> subject_listed succ subject ->
+  forall kl p, pstate_ok p ->
+  let a := mem (fst (pstep succ subject manifest cfg_fixed kl p (PO OReopen))) in
+  let b := fst (step succ subject manifest cfg_fixed kl (mem p) OReopen) in
+  blobs a = blobs b /\ (forall e, In e (idx a) <-> In e (idx b)) /\
+  (forall x, In x (gnodes a) <-> In x (gnodes b)) /\
+  strays a = strays b /\ autogc a = autogc b.
+Proof. intros succ subject manifest _ _ kl p Hp. apply reload_is_reopen. exact Hp. Qed.
